@@ -321,7 +321,12 @@ type c03Model struct {
 // call activates function n (its activation counter first, as the script does).
 func (m *c03Model) call(n int) c03Compl {
 	m.depth[n]++
-	return m.block(m.fns[n])
+	// catch identifiers are locals of the activation
+	saved := m.caught
+	m.caught = map[int]c03Compl{}
+	c := m.block(m.fns[n])
+	m.caught = saved
+	return c
 }
 
 func (m *c03Model) block(ns []*c03Node) c03Compl {
